@@ -1366,3 +1366,40 @@ def c06_drain(ctx):
             else:
                 out.append(bad(R, key, 'thread::park is not re-checked in a loop against the queue state (an unpark that arrives before the park, or a spurious one, is mis-handled)', fn=rj.name))
     return out
+
+
+def c10_raise(ctx):
+    """Raising the pool maximum hands every waiting queue a thread: after storing the new maximum, set_max_threads calls schedule_thread
+    until it reports that nothing more could be scheduled."""
+    out = []
+    R = 'ORD-C10-raise'
+    fn = _fn(ctx, S + 'set_max_threads', R, out)
+    if not fn:
+        return out
+    key = 'set_max_threads|schedule-until-false'
+    st = calls(fn, 'Scheduler::schedule_thread')
+    H = ctx.held(fn)
+    writes = [(bb, i) for bb, b in enumerate(fn.blocks) if not b['cleanup'] for i, s in enumerate(b['stmts'])
+              if s['k'] == 'assign' and s['pl']['p'] and 'SchedulerCore.max_threads' in H.held_before(bb, i)]
+    if not writes:
+        out.append(bad(R, key, 'set_max_threads no longer stores the new maximum under its lock', fn=fn.name))
+        return out
+    if len(st) != 1:
+        out.append(bad(R, key, 'expected one schedule_thread call site in a loop, found %d' % len(st), fn=fn.name))
+        return out
+    bb, t = st[0]
+    e = result_edges(fn, bb)
+    on_cycle = t['target'] is not None and bb in fn.reachable_blocks(t['target'])
+    if not on_cycle or not e:
+        out.append(bad(R, key, 'after the maximum is raised only one thread is asked for: queues already waiting in the schedule stay there although threads may now be spawned', fn=fn.name))
+        return out
+    true_edge = e.get('otherwise')
+    false_edge = e.get('0')
+    exits = set(fn.exits())
+    # the true edge must lead back to the call, the function may only be left through the false edge
+    if true_edge is not None and bb in fn.reachable_blocks(true_edge) and false_edge is not None and fn.must_pass(t['target'], exits, {false_edge}) \
+            and 'SchedulerCore.max_threads' not in H.held_at_term(bb) and all(dominates(fn, w[0], bb) for w in writes):
+        out.append(ok(R, key, 'the new maximum is stored, then schedule_thread is repeated until it returns false (outside the max_threads lock)', fn=fn.name))
+    else:
+        out.append(bad(R, key, 'the scheduling loop after raising the maximum can stop while schedule_thread still succeeds', fn=fn.name))
+    return out
